@@ -101,10 +101,13 @@ def onoff(b: int) -> str:
 def cfg_text(c: dict) -> str | None:
     """The same configuration as a neighbor section of the configuration file grammar, or None when
     the grammar cannot say it (paths-limit, any-peer-AS)."""
-    if c['pl'] or not c['pas'] or not c['fam']:
+    if not c['pas'] or not c['fam']:
+        return None
+    lim = {(a, f): n for a, f, n in c['pl']}
+    if any(k not in {tuple(x) for x in c['aps']} or not 1 <= n <= 65535 for k, n in lim.items()):
         return None
     fam = '\n'.join(f'        {AFI.from_int(a).name()} {SAFI.from_int(f).name()};' for a, f in c['fam'])
-    aps = '\n'.join(f'        {AFI.from_int(a).name()} {SAFI.from_int(f).name()};' for a, f in c['aps'])
+    aps = '\n'.join(f'        {AFI.from_int(a).name()} {SAFI.from_int(f).name()}' + (f' limit {lim[(a, f)]}' if (a, f) in lim else '') + ';' for a, f in c['aps'])
     nhs = '\n'.join(f'        {AFI.from_int(a).name()} {SAFI.from_int(f).name()} {AFI.from_int(h).name()};' for a, f, h in c['nhs'])
     names = (f'    host-name {c["host"]};\n' if c['host'] else '') + (f'    domain-name {c["dom"]};\n' if c['dom'] else '')
     return f"""neighbor 127.0.0.2 {{
@@ -170,16 +173,18 @@ def cfg_words(c: dict, neighbor: Neighbor | None = None) -> str:
         fam = [(int(a), int(f)) for a, f in neighbor.families()]
         nhs = [(int(a), int(f), int(h)) for a, f, h in neighbor.nexthops()]
         aps = [(int(a), int(f)) for a, f in neighbor.addpaths()]
-        gr = int(neighbor.capability.graceful_restart.time) if neighbor.capability.graceful_restart else None
+        gr = c['gr']  # as configured: `Neighbor.infer` (0 -> hold time) is modelled
+        pl = [(int(k[0]), int(k[1]), int(v)) for k, v in neighbor.capability.paths_limit_per_family.items()]
     else:
         fam, nhs, aps, gr = [tuple(x) for x in c['fam']], [tuple(x) for x in c['nhs']], [tuple(x) for x in c['aps']], c['gr']
+        pl = [tuple(x) for x in c['pl']]
     return ' '.join(
         [
             f'las={c["las"]}', f'pas={c["pas"]}', f'rid={c["rid"]}', f'hold={c["hold"]}',
             'fam=' + ';'.join(f'{a}.{f}' for a, f in fam), f'asn4={c["asn4"]}',
             f'nhon={c["nhon"]}', 'nhs=' + ';'.join(f'{a}.{f}.{h}' for a, f, h in nhs),
             f'ap={c["ap"]}', 'aps=' + ';'.join(f'{a}.{f}' for a, f in aps),
-            'pl=' + ';'.join(f'{a}.{f}.{lim}' for a, f, lim in c['pl']),
+            'pl=' + ';'.join(f'{a}.{f}.{lim}' for a, f, lim in pl),
             'gr=' + ('-' if gr is None else str(gr)),
             f'rr={c["rr"]}', f'op={c["op"]}', f'em={c["em"]}',
             'host=' + hx(c['host'].encode('utf-8')), 'dom=' + hx(c['dom'].encode('utf-8')),
@@ -309,9 +314,17 @@ def run_impl(c: dict, theirs_body: bytes) -> dict:
     """One pair (configuration, peer OPEN body) through the real code."""
     neighbor = build_neighbor_from_text(c) if c.get('_text') else None
     via = 'text' if neighbor is not None else 'settings'
+    if neighbor is None and c.get('_text_only'):
+        return {'out': 'config-refused:by the configuration parser', 'ours': b'', 'words': cfg_words(c), 'ours_set': '', 'neg': None, 'via': 'text', 'eff': c}
     if neighbor is None:
-        neighbor = build_neighbor(c)
-    sent, ours_body = our_open(neighbor)
+        try:
+            neighbor = build_neighbor(c)
+        except ValueError as e:  # NeighborSettings.validate / the dataclasses refuse the configuration
+            return {'out': f'config-refused:{e}', 'ours': b'', 'words': cfg_words(c), 'ours_set': '', 'neg': None, 'via': 'settings', 'eff': c}
+    try:
+        sent, ours_body = our_open(neighbor)
+    except Exception as e:  # an accepted configuration for which no OPEN can be built
+        return {'out': f'open-crash:{type(e).__name__}:{e}', 'ours': b'', 'words': cfg_words(c, neighbor), 'ours_set': '', 'neg': None, 'via': via, 'eff': c}
     # the configuration as the Neighbor object holds it (the parser's normalisation is accepted as
     # "what the configuration enables": e.g. add-path / next-hop families outside `family` are dropped)
     eff = dict(c)
@@ -319,6 +332,7 @@ def run_impl(c: dict, theirs_body: bytes) -> dict:
         eff['fam'] = [[int(a), int(f)] for a, f in neighbor.families()]
         eff['aps'] = [[int(a), int(f)] for a, f in neighbor.addpaths()]
         eff['nhs'] = [[int(a), int(f), int(h)] for a, f, h in neighbor.nexthops()]
+        eff['pl'] = [[int(k[0]), int(k[1]), int(v)] for k, v in neighbor.capability.paths_limit_per_family.items()]
     res: dict[str, Any] = {'eff': eff, 'ours': ours_body, 'words': cfg_words(c, neighbor), 'ours_set': render_capset(sent.capabilities), 'neg': None, 'via': via}
     status, theirs = decode_impl(theirs_body, neighbor)
     if theirs is None:
